@@ -25,9 +25,24 @@ let of_lrow = function
   | RConstraint (ts, o, v) -> L [A "constraint"; of_list of_chars ts; Q (pbop_s o); of_chars v]
   | RBad -> L [A "bad"]
 
+let of_pol_name = of_pair of_bool of_chars
+let of_litrow = function
+  | LSquare -> L [A "square"]
+  | LClause ls -> L [A "clause"; of_list of_pol_name ls]
+  | LConstraint (ts, o, v) -> L [A "constraint"; of_list (of_pair of_chars of_pol_name) ts; Q (pbop_s o); of_chars v]
+
 let () =
+  (* the rows of a LaTeX text read as literals: (top?, [row | none]) *)
+  register "latex_litrows" (function [opb; t] ->
+      let (top, rows) = rows_of_latex (to_bool opb) (to_chars t) in
+      L [of_bool top; of_list (fun r -> of_opt of_litrow (decode_lrow r)) rows] | _ -> raise (Bad "arity"));
+  register "formula_litrows" (function [names; f] ->
+      of_opt (of_list of_litrow) (formula_litrows (to_names names) (to_formula f)) | _ -> raise (Bad "arity"));
+  register "decode_lit" (function [t] -> of_opt of_pol_name (decode_lit (to_chars t)) | _ -> raise (Bad "arity"));
   register "print_opb" (function [h; names; f] ->
       of_chars (print_opb (to_header h) (to_opt to_names names) (to_formula f)) | _ -> raise (Bad "arity"));
+  register "print_opb_as_found" (function [h; names; f] ->
+      of_chars (print_opb_as_found (to_header h) (to_opt to_names names) (to_formula f)) | _ -> raise (Bad "arity"));
   register "parse_opb" (function [t] ->
       (match parse_opb (to_chars t) with
        | OOk (n, c) -> L [A "ok"; of_zbig n; of_list of_pbc_big c]
